@@ -14,6 +14,7 @@ stdout: [ per program  {"id", "runs": [ per option set
 """
 import dataclasses
 import enum
+import gc
 import json
 import os
 import sys
@@ -28,15 +29,15 @@ def cid(c):
     return c.__module__ + ":" + c.__qualname__
 
 
-def lexical(v):
+def lexical(v, fmt=None):
     """Textual form of a default value, as the serializer would write it."""
     from xsdata.formats.converter import converter
     if type(v) in (list, tuple):                      # XmlDate & co are NamedTuples: exact types only
-        return " ".join(lexical(x) for x in v)
+        return " ".join(lexical(x, fmt) for x in v)
     if isinstance(v, enum.Enum):
-        return lexical(v.value)
+        return lexical(v.value, fmt)
     try:
-        return converter.serialize(v)
+        return converter.serialize(v, format=fmt) if fmt else converter.serialize(v)
     except Exception:  # noqa
         return str(v)
 
@@ -67,7 +68,7 @@ def var_view(v, clazz=None):
          "format": v.format, "sequence": v.sequence, "wrapper": v.wrapper,
          "types": [type_view(t) for t in v.types], "clazz": cid(v.clazz) if v.clazz else None}
     dv = v.default() if callable(v.default) else v.default
-    d["default"] = None if (dv is None or dv == [] or dv == ()) else lexical(dv)
+    d["default"] = None if (dv is None or dv == [] or dv == ()) else lexical(dv, v.format)
     enum_vals = None
     for t in v.types:
         if isinstance(t, type) and issubclass(t, enum.Enum):
@@ -88,9 +89,16 @@ def field_has_default(clazz, name):
     return True
 
 
-def class_view(ctx, c):
+def class_view(ctx, c, dcs=()):
     m = ctx.build(c)
-    return {"id": cid(c), "qname": m.qname, "target_qname": m.target_qname, "nillable": bool(m.nillable),
+    xsi = {}
+    for o in dcs:
+        tq = ctx.build(o).target_qname
+        if tq and tq not in xsi:
+            sub = ctx.find_subclass(c, tq)
+            if sub is not None:
+                xsi[tq] = cid(sub)
+    return {"id": cid(c), "xsi": xsi, "qname": m.qname, "target_qname": m.target_qname, "nillable": bool(m.nillable),
             "mixed_content": bool(m.mixed_content), "bases": [cid(b) for b in c.__mro__[1:] if dataclasses.is_dataclass(b)],
             "elements": [var_view(v, c) for v in m.get_element_vars()],
             "attributes": [var_view(v, c) for v in m.get_attribute_vars()]}
@@ -172,14 +180,14 @@ def run_one(p, oset):
         # (XmlContext caches the first build of a class; ElementNode.build_element_node passes the
         # namespace of the parent class)
         try:
-            work, seen = [(root_cls, None)], set()
+            work, seen, order = [(root_cls, None)], set(), []
             while work:
                 c, pns = work.pop(0)
                 if c in seen:
                     continue
                 seen.add(c)
                 m = ctx.build(c, pns)
-                out["classes"].append(class_view(ctx, c))
+                order.append(c)
                 for v in m.get_element_vars():
                     for w in [v] + list(v.elements.values()):
                         for t in w.types:
@@ -188,14 +196,22 @@ def run_one(p, oset):
                                 work.extend((s, m.namespace) for s in dcs if s is not t and issubclass(s, t))
             for c in dcs:
                 if c not in seen:
-                    out["classes"].append(class_view(ctx, c))
+                    ctx.build(c)
+                    order.append(c)
+            for c in order:
+                out["classes"].append(class_view(ctx, c, dcs))
         except BaseException as e:  # noqa
             out["status"], out["error"] = "bind_error", {"type": type(e).__name__, "message": str(e)[:300], "where": cid(c)}
             return out
         for doc in p.get("docs", []):
             out["docs"].append(roundtrip(ctx, root_cls, doc))
-        for doc in (p.get("extra") or {}).get(oset["name"], []):
-            out["extra"].append(roundtrip(ctx, root_cls, doc))
+        by_id = {cid(c): c for c in dcs}
+        for x in (p.get("extra") or {}).get(oset["name"], []):
+            if isinstance(x, dict):                     # a witness replayed directly on the class it is about
+                c = by_id.get(x["class"])
+                out["extra"].append(roundtrip(ctx, c, x["doc"]) if c else {"err": "NoSuchClass", "msg": x["class"], "stage": "?"})
+            else:
+                out["extra"].append(roundtrip(ctx, root_cls, x))
         if p.get("want_source"):
             out["source"] = {m["path"]: m["source"] for m in run._trace["modules"]}
     return out
@@ -213,6 +229,9 @@ def main():
         for oset in p["option_sets"]:
             try:
                 runs.append(run_one(p, oset))
+                # classes of finished runs must not linger: XmlContext.build_xsi_cache walks every dataclass alive in
+                # the interpreter (object.__subclasses__), including those of earlier programs
+                gc.collect()
             except BaseException as e:  # noqa: a harness-level failure of one run must not hide the others
                 if isinstance(e, (KeyboardInterrupt, SystemExit)):
                     raise
